@@ -69,6 +69,9 @@ func Gen(prop string, r *sim.Rand, tier string) sim.Script {
 	if r.Chance(1, 5) {
 		nKeys = 1 + r.Intn(3)
 	}
+	if prop == "C12" && r.Chance(1, 2) {
+		nKeys = 8 + r.Intn(24) // enough distinct keys for requests beyond the parallel threshold
+	}
 	nOps := 2 + r.Intn(40)
 	if tier == "thorough" && r.Chance(1, 60) {
 		nKeys = 20 + r.Intn(60)
@@ -80,6 +83,9 @@ func Gen(prop string, r *sim.Rand, tier string) sim.Script {
 	if prop != "C11" {
 		small = r.Chance(1, 10)
 	}
+	if prop == "C12" || prop == "C10" {
+		small = false // unique values: a foreign value is attributable, and no stored node is shared (see the GC known finding)
+	}
 	n := 0
 	wUpd, wDel, wReadd, wRoot, wCommit, wGC, wReload, wCrash, wSave, wRollback := 40, 18, 8, 5, 12, 8, 4, 0, 0, 0
 	switch prop {
@@ -89,6 +95,13 @@ func Gen(prop string, r *sim.Rand, tier string) sim.Script {
 	case "C13":
 		wSave, wRollback, wReload = 6, 6, 1
 		s.Store = "simkv"
+	case "C10":
+		wRoot, wGC, wCommit, wReload = 1, 0, 3, 1
+	case "C12":
+		wRoot, wGC = 2, 3
+		if r.Chance(1, 6) {
+			nOps = r.Intn(3) // nearly empty sources
+		}
 	}
 	for i := 0; i < nOps; i++ {
 		k := r.Weighted([]int{wUpd, wDel, wReadd, wRoot, wCommit, wGC, wReload, wCrash, wSave, wRollback})
@@ -144,6 +157,56 @@ func Gen(prop string, r *sim.Rand, tier string) sim.Script {
 			s.Ops = append(s.Ops, WOp{K: "gc"})
 		}
 		s.Ops = append(s.Ops, WOp{K: "rollback", N: r.Intn(2)})
+	} else if prop == "C10" {
+		// the prover is an in-memory trie or a trie reloaded from storage, not updated afterwards
+		switch r.Intn(3) {
+		case 0:
+		case 1:
+			s.Ops = append(s.Ops, WOp{K: "commit", N: r.Intn(5), Sync: true})
+		default:
+			s.Ops = append(s.Ops, WOp{K: "commit", N: r.Intn(5), Sync: true}, WOp{K: "reload"})
+		}
+		s.Ops = append(s.Ops, WOp{K: "prove", N: r.Intn(1 << 20)})
+		kinds := []string{"reweight", "zero", "swaphash", "swapchild", "subst", "drop", "dup", "reorder", "trunc", "flip", "shortw", "valw", "block"}
+		// swarm: a random subset of tamper kinds is enabled per run
+		var enabled []string
+		for _, k := range kinds {
+			if r.Chance(1, 3) {
+				enabled = append(enabled, k)
+			}
+		}
+		if len(enabled) == 0 {
+			enabled = []string{kinds[r.Intn(len(kinds))]}
+		}
+		for j := r.Intn(4); j > 0; j-- {
+			s.Ops = append(s.Ops, WOp{K: "t." + enabled[r.Intn(len(enabled))], A: r.Intn(16), B: r.Intn(1 << 20)})
+		}
+		s.Ops = append(s.Ops, WOp{K: "verify"})
+	} else if prop == "C12" {
+		// source in memory (dirty or clean), collapsed, or reloaded
+		switch r.Intn(4) {
+		case 0:
+		case 1:
+			s.Ops = append(s.Ops, WOp{K: "commit", N: r.Intn(5), Sync: true})
+		case 2:
+			s.Ops = append(s.Ops, WOp{K: "commit", N: r.Intn(5), Sync: true}, WOp{K: "reload"})
+		default:
+			s.Ops = append(s.Ops, WOp{K: "commit", N: r.Intn(5), Sync: true}, WOp{K: "gc"})
+		}
+		nreq := []int{0, 1, 2, 3, 5, 9, 10, 11, 12, 16, 24}[r.Intn(11)]
+		ex := WOp{K: "export"}
+		for j := 0; j < nreq; j++ {
+			ex.S = append(ex.S, r.Intn(len(s.Keys)))
+		}
+		s.Ops = append(s.Ops, ex)
+		for j := r.Intn(10); j > 0; j-- {
+			if r.Chance(1, 3) {
+				s.Ops = append(s.Ops, WOp{K: "mdel", I: r.Intn(64)})
+			} else {
+				n++
+				s.Ops = append(s.Ops, WOp{K: "mupd", I: r.Intn(64), V: genVal(r, n, small)})
+			}
+		}
 	} else {
 		s.Ops = append(s.Ops, WOp{K: "commit", N: r.Intn(5), Sync: true})
 		if r.Chance(1, 2) {
